@@ -221,7 +221,7 @@ type flavour struct {
 }
 
 var flavours = []flavour{
-	{"symbol", func(i int) string { return "'" + inertSym(i+1) }, func(i int) string { return inertSym(i+1) }},
+	{"symbol", func(i int) string { return "'" + inertSym(i+1) }, func(i int) string { return inertSym(i + 1) }},
 	{"fixnum", func(i int) string { return "1" }, func(i int) string { return "1" }},
 	{"string", func(i int) string { return `"s"` }, func(i int) string { return `"s"` }},
 	{"list", func(i int) string { return "'(1 2)" }, func(i int) string { return "(quote 1)" }},
@@ -254,7 +254,7 @@ func typed(typ string, macro bool, i int) string {
 		if strings.Contains(typ, "lambda") {
 			return q("list")
 		}
-		return q(inertSym(i+1))
+		return q(inertSym(i + 1))
 	case "function", "function-designator":
 		return q("list")
 	case "boolean":
@@ -300,7 +300,7 @@ func typed(typ string, macro bool, i int) string {
 			return `(make-string-input-stream "s")`
 		}
 	}
-	return q(inertSym(i+1))
+	return q(inertSym(i + 1))
 }
 
 var arityMsg = regexp.MustCompile(`(?i)^too (few|many) arguments|requires at least \d+ arguments|wrong number of arguments|expected .* pairs\. not \d+ arguments|expects? (one|two|three|\d+) arguments?`)
